@@ -14,12 +14,16 @@ def gen(rng: random.Random, tier: str):
         rows = [[UB + u, IB + i, float(rng.choice([1, 2, 3, 4, 5]))] for u in range(nu) for i in range(ni) if rng.random() < rng.choice([0.4, 0.55, 0.7])]
         if len({r[1] for r in rows}) < 2 or len({r[0] for r in rows}) < 3: continue
         kk = rng.randint(1, 4)
-        yield {"algo": "item" if k % 2 == 0 else "user", "rows": rows, "explicit": explicit, "k": kk, "min_nbrs": rng.randint(1, min(kk, 3)),
+        yield {"algo": "item" if k % 2 == 0 else "user", "rows": rows, "explicit": explicit, "k": kk, "min_nbrs": (rng.randint(1, min(kk, 3)) if rng.random() < 0.8 else kk + rng.randint(1, 2)),          # a minimum above the limit is a configuration like any other
                "min_sim": rng.choice([1e-6, 0.05, 0.2]), "save_nbrs": rng.choice([None, None, 1, 2, 3]), "block": rng.choice([1, 2, 3, 250])}
     # directed: dense explicit data and a small k — neighbourhoods larger than k on both scoring paths
     for algo in ("item", "item", "user"):
         rows = [[100 + u, 1000 + i, float(rng.choice([1, 2, 3, 4, 5]))] for u in range(7) for i in range(6) if rng.random() < 0.85]
         yield {"algo": algo, "rows": rows, "explicit": True, "k": rng.choice([1, 2]), "min_nbrs": 1, "min_sim": 1e-6, "save_nbrs": None, "block": 250}
+    # directed: a minimum above the limit on dense data (neighbourhoods larger than the limit yet smaller than the minimum)
+    for algo, expl in (("item", False), ("item", True), ("user", False)):
+        rows = [[100 + u, 1000 + i, float(rng.choice([1, 2, 3, 4, 5]))] for u in range(8) for i in range(6) if rng.random() < 0.85]
+        yield {"algo": algo, "rows": rows, "explicit": expl, "k": 2, "min_nbrs": 5, "min_sim": 1e-6, "save_nbrs": None, "block": 250}
     # directed: implicit users with four items each, neighbours sharing exactly two — a cosine of exactly 1/2 (every operation is exact in
     # binary floating point), and a threshold of exactly 1/2: a neighbour AT the threshold qualifies
     base = [0, 1, 2, 3]
@@ -169,6 +173,7 @@ def run(case: dict, lean: Lean) -> Outcome:
     if over_k: classes.append("neighbourhood larger than k")
     if case["save_nbrs"] and case["algo"] == "item": classes.append("stored-neighbour truncation")
     if case["min_nbrs"] > 1: classes.append("min_nbrs > 1")
+    if case["min_nbrs"] > case["k"]: classes.append("min_nbrs > max_nbrs")
     if case["block"] != 250 and case["algo"] == "item": classes.append("small block size")
     return Outcome(corr, not failed, tuple(classes), {"failed": failed[:10]}, None)
 
